@@ -36,6 +36,7 @@ impl Writer {
                     }
                     assert(m1.contains_key(current_node) && m1[current_node] == TNode::Desc(new_descendants@));
                     lemma_fold_desc(m1, current_node);
+                    vstd::set_lib::lemma_len_subset(new_descendants@, descendants@);
                     assert(del_post(m, current_node, t0, tmp_nodes.tv(), to_delete@, cap, current_node, new_descendants@));
                 }
 //@hint before <<<let (new_left, left_items) = match left.mode {>>>
